@@ -18,6 +18,9 @@ CHECKS = {
  'C03': dict(level='proof', design='3.C03',
    technique='static dataflow normalisation of optimised LLVM IR: comparison predicate + mask encoding terms',
    text="Per (comparison, element type, configuration): every output mask lane (vector mask: all-ones/zero lanes; AVX512: k-register bit i) is the exact icmp/fcmp predicate of lane i's operands (ordered predicates for floats, une for !=), including the SSE2 64-bit and AVX512F 8/16-bit emulations (decided through reviewed identities: Hacker's Delight 2-12, eq-merge, Morton-table projection analysis of the constant LUT)."),
+ 'C04': dict(level='proof', design='3.C04',
+   technique='static footprint + provenance analysis of optimised LLVM IR (typed loads/stores with constant offsets through the pointer argument)',
+   text="load_aligned/load_unaligned/tag forms/free functions, store_*, bool-array load/store, broadcast, element-list constructor, get(i), insert<i>, gather/scatter, per (element type, configuration): the union of byte ranges accessed through the pointer argument is exactly [0, size*sizeof(T)) -- nothing outside is read or written, nothing inside is skipped; output lane i has provenance memory element i (store: the inverse); the alignment the IR assumes on an 'unaligned' access is <= alignof(T), on an 'aligned' access <= A::alignment(); gather/scatter perform exactly n element accesses at base + sext(index lane i)*sizeof(T) paired with lane i (native AVX2/AVX512 gathers are modelled from the SDM). Converting load_as/store_as are decided under C06; complex (de)interleaving under C16."),
  'C05': dict(level='exploration', design='3.C05',
    technique='static byte-provenance analysis of optimised LLVM IR per instantiation (constant-mask specialisation); exploration over the instantiation space',
    text="swizzle/shuffle with compile-time masks, zip_lo/hi, slide_left/right (every byte count), rotate_left/right (every lane count), extract_pair (every index), insert (every position), compress/expand (every mask value up to 8 lanes, structured+random above), for every element type on 21 configurations: each instantiation is compiled and its result register is read as a concatenation of untouched input slices; the obligation is that every output lane is exactly the input lane (or zero fill) the definition names -- decided for ALL lane values. The space of index patterns is explored, not exhausted: all n^n masks for n<=4, structured families (identity/reverse/rotations/broadcasts/half swaps/in-lane vs cross-lane/one-lane-from-the-other-half/zip/extract windows) plus VERIF_SEED-driven random masks for wider batches (quick 24-48, thorough 600-1500 per type and configuration). Run-time-index swizzle and transpose are not claimed here."),
